@@ -255,3 +255,6 @@ func NormTimeCmp(v ssa.Value) (TimeCmp, bool) {
 	}
 	return TimeCmp{Call: c, X: c.Call.Args[0], Y: c.Call.Args[1], Rel: rel}, true
 }
+
+// StripConv removes conversions.
+func StripConv(v ssa.Value) ssa.Value { return stripConv(v) }
